@@ -125,6 +125,8 @@ func (a *accCtx) subViews(s *accState, viol func(sig, what string)) string {
 			if check("CheckpointView.Set", cv.Set(&cp)) {
 				m.Items[i] = &rs.Value{Items: []*rs.Value{u64v(uint64(cp.Epoch)), rootv(cp.Root)}}
 			}
+			cp.Epoch++ // the caller's struct is its own
+			cp.Root[3] ^= 0xff
 		}
 	}
 	if i := a.idx("fork"); i >= 0 {
